@@ -273,9 +273,9 @@ def _tick(ctx, label):
     fw.log("  [%6.1fs] %s" % (now - ctx.t0, label))
 
 
-def run_codec_tie(ctx):
+def run_codec_tie(ctx, only=None):
     n_random = 400 if ctx.thorough() else 30
-    enc, dec, tok = codec_cases(ctx, n_random)
+    enc, dec, tok = only if only is not None else codec_cases(ctx, n_random)
     lines = []
     for t, b, g, v in enc:
         lines.append("E %s %d %d %d" % (tname(t), b, g, v))
@@ -615,7 +615,7 @@ def perturb(r, text, leaves_info):
     return s
 
 
-def run_struct_tie(ctx, gt):
+def run_struct_tie(ctx, gt, only=None):
     r = ctx.rng
     n_mod = 100 if ctx.thorough() else 10
     n_inst = 5 if ctx.thorough() else 3
@@ -625,11 +625,13 @@ def run_struct_tie(ctx, gt):
     mods = []
     jobs = []
     wd = os.path.join(ctx.bdir, "cpp")
-    corpus = sorted(glob.glob(os.path.join(fw.VERIF, "corpus", "C06", "*.json")))
+    corpus = [json.load(open(p)) for p in sorted(glob.glob(os.path.join(fw.VERIF, "corpus", "C06", "*.json")))]
+    if only is not None:
+        corpus, n_mod = list(only), 0
     for mi in range(n_mod + len(corpus)):
         name = "tm%d" % mi
         if mi < len(corpus):
-            rec = json.load(open(corpus[mi]))
+            rec = corpus[mi]
             mod = None
             text = rec["module"]
         else:
@@ -669,7 +671,9 @@ def run_struct_tie(ctx, gt):
                     continue
                 zero_tree = zero_tree or tree
                 vname = "v_%s_%s_%d" % (name, top, ii)
-                vdef = (vname, "tval", G.coq_tval(tree))
+                dd = {}
+                vterm = G.coq_tval_shared(tree, dd)
+                vdef = [(k, ty, tm) for k, (ty, tm) in dd.items()] + [(vname, "tval", vterm)]
                 opts = [(fixed_opts, fixed_opts["multiline"] or not fixed_opts["comments"])] if fixed_opts else \
                     [allopts[0]] + r.sample(allopts[1:], n_opt - 1)
                 for o, reread in opts:
@@ -744,7 +748,7 @@ def run_struct_tie(ctx, gt):
             _check_emission(ctx, mt, text.decode("latin-1"), replay, gt)
             exp = "(%s, %s)" % (G.coq_text(text), "true" if mt["reread"] else "false")
             inp_term = "(%s, %s, %s)" % (gt_term(gt), G.coq_opts(o), mt["vname"])
-            wcases.append((inp_term, exp, dict(md=md, mt=mt, replay=replay, defs=[mt["vdef"]])))
+            wcases.append((inp_term, exp, dict(md=md, mt=mt, replay=replay, defs=mt["vdef"])))
             if mt["flat"] and mt["reread"]:
                 md["flat_texts"].setdefault(mt["top"], []).append((text.decode("latin-1"), mt))
     # for option sets that are not re-readable (single line + comments) only the text is compared
@@ -983,12 +987,13 @@ def run_update_tie(ctx, mods, results, n_pert, gt):
                 ctx.count("update:leaf-not-ok")
                 continue
             vals = [int(x) for x in p[2:]]
-            tab = "[" + ";".join("(%s,%s,%s)" % (G.coq_path(path), G.zlit(rng[0]), G.zlit(rng[1])) for path, node, rng in mt["leaves"]) + "]"
-            vname = mt["vdef"][0]
+            dd = {}
+            tab = "[" + ";".join("(%s,%s,%s)" % (G.coq_path_shared(path, dd), G.zlit(rng[0]), G.zlit(rng[1])) for path, node, rng in mt["leaves"]) + "]"
+            vname = mt["vdef"][-1][0]
             a = "(schema_of %s, tab_%s, %s)" % (vname, vname, G.coq_text(mt["text"]))
             b = "(%d, [%s])" % (0 if p[1] == "1" else 1, ";".join(G.zlit(v) for v in vals))
             ucases.append((a, b, dict(module=md["text"], struct=mt["top"], text=mt["text"].decode("latin-1"), cpp=l, size=mt["size"],
-                                      defs=[mt["vdef"], ("tab_" + vname, "leaf_tab", tab)])))
+                                      defs=mt["vdef"] + [(k, ty, tm) for k, (ty, tm) in dd.items()] + [("tab_" + vname, "leaf_tab", tab)])))
             ctx.count("update:" + ("accepted" if p[1] == "1" else "rejected"))
     if not ucases:
         return
@@ -1034,6 +1039,45 @@ def run(ctx):
         ctx.extra["gen_table"] = list(gt)
         # a table that is not the documented one is decided on the real C++ by _check_emission (keys text-output-*-ignored)
     _tick(ctx, "theorems checked")
+    if getattr(ctx, "replay_path", None):
+        replay(ctx, gt)
+        return
     run_codec_tie(ctx)
     run_struct_tie(ctx, gt)
     _tick(ctx, "done")
+
+
+def replay(ctx, gt):
+    """./check C06 --replay file: re-runs the recorded input through the same comparisons."""
+    d = json.load(open(ctx.replay_path))
+    r = d.get("replay", d)
+    kind = r.get("kind")
+    names = {tname(t): t for t in TYPES}
+    if kind == "struct" and "buffer" in r:
+        rec = dict(module=r["module"], structs=[r["struct"]],
+                   cases=[dict(struct=r["struct"], instance=r["instance"], buffer=r["buffer"], options=r["options"])])
+        run_struct_tie(ctx, gt, only=[rec])
+    elif kind == "codec" and "value" in r:
+        run_codec_tie(ctx, only=([(names[r["type"]], r["base"], int(r["grouping"]), int(r["value"]))], [], []))
+    elif kind == "codec" and "text" in r:
+        run_codec_tie(ctx, only=([], [(names[r["type"]], r["text"])], []))
+    elif kind == "codec" and "line" in r:
+        p = r["line"].split()
+        if p[0] == "E":
+            run_codec_tie(ctx, only=([(names[p[1]], int(p[2]), int(p[3]), int(p[4]))], [], []))
+        elif p[0] == "D":
+            run_codec_tie(ctx, only=([], [(names[p[1]], bytes.fromhex(p[2]).decode("latin-1") if len(p) > 2 else "")], []))
+        else:
+            run_codec_tie(ctx, only=([], [], [bytes.fromhex(p[1]).decode("latin-1") if len(p) > 1 else ""]))
+    elif kind in ("codec-correspondence",) and "case" in r:
+        c = r["case"]
+        if c["kind"] == "enc":
+            run_codec_tie(ctx, only=([(names[c["type"]], c["base"], int(c["grouping"]), int(c["value"]))], [], []))
+        elif c["kind"] == "dec":
+            run_codec_tie(ctx, only=([], [(names[c["type"]], c["text"])], []))
+        else:
+            run_codec_tie(ctx, only=([], [], [c["text"]]))
+    else:
+        ctx.note("replay kind %r is not a single input; running the whole check" % kind)
+        run_codec_tie(ctx)
+        run_struct_tie(ctx, gt)
